@@ -354,9 +354,90 @@ class IoTr2(IoTr):
     KIND_OF_CLASS = {'GeoPoint': 'Kind.point', 'GeoLineString': 'Kind.line', 'GeoPolygon': 'Kind.poly', 'MultiGeoPoint': 'Kind.mpoint',
                      'MultiGeoLineString': 'Kind.mline', 'MultiGeoPolygon': 'Kind.mpoly'}
 
+    def kml_expr(self, e, u):
+        """the KML exporters: fastkml objects as the model's `KTime` / `Placemark` / `KNode`"""
+        narrow = getattr(self, 'narrow', {})
+        if u in narrow:
+            return narrow[u][0], True, narrow[u][1]
+        if isinstance(e, ast.Attribute) and isinstance(e.value, ast.Name) and e.value.id in self.env:
+            t, k = self.env[e.value.id]
+            if k == 'TI' and e.attr in ('start', 'end'):
+                return f'({t}).{1 if e.attr == "start" else 2}', True, 'Int'
+            if k == 'Shape' and e.attr == '_properties':
+                return f'({t}).props', True, 'Dict'
+            if k == 'Shape' and e.attr == 'dt':
+                return f'({t}).dt', True, 'OptTI'
+        if isinstance(e, ast.Call) and isinstance(e.func, ast.Name):
+            f, kws = e.func.id, {k.arg: k.value for k in e.keywords}
+            if f == 'KmlDateTime' and len(e.args) + len(kws) == 1 and set(kws) <= {'dt'}:
+                t, p, k = self.expr(e.args[0] if e.args else kws['dt'])
+                if p and k == 'Int':
+                    return t, True, 'Int'
+            if f == 'TimeStamp' and not e.args and set(kws) == {'timestamp'}:
+                t, p, k = self.expr(kws['timestamp'])
+                if p and k == 'Int':
+                    return f'(KTime.stamp {t})', True, 'KTime'
+            if f == 'TimeSpan' and not e.args and list(kws) == ['begin', 'end']:
+                (a, ap, ak), (b, bp, bk) = self.expr(kws['begin']), self.expr(kws['end'])
+                if ap and bp and ak == bk == 'Int':
+                    return f'(KTime.span {a} {b})', True, 'KTime'
+            if f == 'Data' and not e.args and list(kws) == ['name', 'value']:
+                (a, ap, ak), (b, bp, bk) = self.expr(kws['name']), self.expr(kws['value'])
+                if ap and bp and ak == 'Str' and bk == 'PVal':
+                    return f'({a}, {b})', True, ('Pair', 'Str', 'PVal')
+            if f == 'ExtendedData' and not e.args and list(kws) == ['elements']:
+                t, p, k = self.expr(kws['elements'])
+                if p and k == ('List', ('Pair', 'Str', 'PVal')):
+                    return t, True, 'Dict'
+            if f == 'Placemark' and not e.args and [k.arg for k in e.keywords] == ['geometry', 'extended_data', 'times', None] \
+                    and isinstance(e.keywords[3].value, ast.Name) and self.env.get(e.keywords[3].value.id, (None, None))[1] == 'NoKw':
+                def mkp(a):
+                    if [x[1] for x in a] != ['GI', 'Dict', 'KTime']:
+                        self.bad(e, 'Placemark(geometry=…, extended_data=…, times=…) at other types')
+                    return f'pure {{ geom := Option.some {a[0][0]}, data := Option.some {a[1][0]}, times := {a[2][0]} }}'
+                self.shape_as_geometry = True
+                try:
+                    t, _p = self.bind_args([k.value for k in e.keywords[:3]], mkp)
+                finally:
+                    self.shape_as_geometry = False
+                return t, False, 'PM'
+            if f == 'Folder' and not e.args and list(kws) == ['name', 'features']:
+                def mkf(a):
+                    if [x[1] for x in a] != ['Str', ('List', 'PM')]:
+                        self.bad(e, 'Folder(name=…, features=…) at other types')
+                    return f'pure (KNode.folder (Option.some {a[0][0]}) ({a[1][0]}.map KNode.pm))'
+                t, _p = self.bind_args([kws['name'], kws['features']], mkf)
+                return t, False, 'KNode'
+        if isinstance(e, ast.Name) and getattr(self, 'shape_as_geometry', False) and self.env.get(e.id, (None, None))[1] == 'Shape':
+            return f'giOrErr {self.env[e.id][0]}', False, 'GI'        # fastkml reads the shape's geo interface (not translated)
+        if isinstance(e, ast.Call) and isinstance(e.func, ast.Attribute) and not e.args and not e.keywords \
+                and e.func.attr in getattr(self, 'methods', {}):
+            t, p, k = self.expr(e.func.value)
+            lean, want, ret = self.methods[e.func.attr]
+            if p and k == want:
+                return f'{lean} {t}', False, ret
+        if isinstance(e, ast.IfExp) and isinstance(e.test, ast.Compare) and len(e.test.ops) == 1 and isinstance(e.test.ops[0], ast.IsNot) \
+                and isinstance(e.test.comparators[0], ast.Constant) and e.test.comparators[0].value is None \
+                and isinstance(e.orelse, ast.Constant) and e.orelse.value is None:
+            t, p, k = self.expr(e.test.left)
+            if p and k == 'OptTI':
+                x = self.gensym('ti')
+                self.narrow = dict(narrow)
+                self.narrow[ast.unparse(e.test.left)] = (x, 'TI')
+                try:
+                    b, bp, bk = self.expr(e.body)
+                finally:
+                    self.narrow = narrow
+                if bk == 'KTime':
+                    return (f'(match {t} with | Option.some {x} => {b if not bp else "pure " + b} | Option.none => pure KTime.none)'), False, 'KTime'
+        return None
+
     def reader_expr(self, e):
         """the reader side (`from_shapefile`): archive members, the pyshp reader's rows, the class map"""
         u = ast.unparse(e)
+        r = self.kml_expr(e, u)
+        if r is not None:
+            return r
         if isinstance(e, ast.Dict) and e.keys and all(isinstance(k, ast.Constant) and isinstance(k.value, str) for k in e.keys) \
                 and all(isinstance(v, ast.Name) and v.id in self.KIND_OF_CLASS for v in e.values):
             return '[' + ', '.join(f'({py2lean._lean_str(k.value)}, {self.KIND_OF_CLASS[v.id]})' for k, v in zip(e.keys, e.values)) + ']', True, 'ClassMap'
@@ -759,13 +840,15 @@ class Fn:
         self.qual, self.lean, self.params, self.closure, self.nt, self.doc = qual, lean, list(params), list(closure), nt, doc
         self.writer, self.localfns = writer, localfns or {}
         self.reader = False
+        self.file = 'collections.py'
 
 
 KIND_TYPE = {'V': 'V', 'Str': 'String', 'Dict': 'Dict PVal', 'Shape': 'Shape', 'Nat': 'Nat', 'PVal': 'PVal', 'PTag': 'PTag',
              'TagDict': 'Dict PTag', 'Incl': 'Option (List String)', 'Writer': 'WriterS', 'Out': 'List ShpFileW', 'Path': 'Unit',
              'Coll': 'List Shape', 'Archive': 'List Member', 'Member': 'Member', 'Reader': 'ShpFileR', 'ShpShape': 'ShpShapeR',
              'ClassMap': 'List (String × Kind)', 'Kind': 'Kind', 'NoneT': 'Unit', 'GI': 'GI', 'FrameW': 'GpdFrameW', 'Frame': 'GpdFrameR',
-             'GRow': 'GpdRowR'}
+             'GRow': 'GpdRowR', 'TI': 'Int × Int', 'Int': 'Int', 'KTime': 'KTime', 'PM': 'Placemark', 'KNode': 'KNode',
+             'OptTI': 'Dt', 'NoKw': 'Unit'}
 
 
 def find_def(tree, qual):
@@ -795,22 +878,24 @@ class IoUnit:
             got = py2lean.pin_of(py2lean.Source(os.path.join(self.base, rel)).get(q))
             if got != digest:
                 raise Unsupported(f'pinned helper `{qual}` changed (AST digest {got}, pinned {digest})')
-        tree = ast.parse(open(self.path).read())
+        trees = {}
         out = ['import GeoVerif.Model.IoPy', '/-!',
                '# GENERATED by harness/srcunits_io.py (reading `io_adapters`) from `geostructures/collections.py` on every run. Do not edit.',
                '', 'One definition per translated function of the current source text; values are `GV.Io.Py.V`.', '-/', '',
                'set_option linter.unusedVariables false', '', 'namespace GV.SrcIo', 'open GV.Io GV.Io.Py', '']
         for f in self.fns:
-            out += self.render_fn(tree, f) + ['']
+            if f.file not in trees:
+                trees[f.file] = ast.parse(open(os.path.join(self.base, f.file)).read())
+            out += self.render_fn(trees[f.file], f) + ['']
         out += ['end GV.SrcIo', '']
         return '\n'.join(out)
 
     def render_fn(self, tree, f):
         node, outers = find_def(tree, f.qual)
         a = node.args
-        if a.vararg or a.kwarg or a.kwonlyargs or a.posonlyargs:
+        if a.vararg or a.kwonlyargs or a.posonlyargs or (a.kwarg and a.kwarg.arg not in [n for n, k in f.params if k == 'NoKw']):
             raise Unsupported(f'`{f.qual}`: star / keyword-only parameters')
-        have = [x.arg for x in a.args]
+        have = [x.arg for x in a.args] + ([a.kwarg.arg] if a.kwarg else [])
         if have != [n for n, _k in f.params]:
             raise Unsupported(f'`{f.qual}`: parameters {have} do not match the declared {[n for n, _k in f.params]}')
         env = {}
@@ -839,6 +924,7 @@ class IoUnit:
             tr = IoTr2(f.qual, node, env, f.nt, f.lean, f.localfns)
             tr.empty_list_kind = ('List', 'Shape')
             tr.ret_kind = getattr(f, 'ret_kind', None)
+            tr.methods = getattr(f, 'methods', {})
             tr.ret_bare = None
             body = tr.block(list(node.body), fall='.error "ERR:NoReturn"')
             for a_ in tr.shared['aux']:
@@ -849,7 +935,7 @@ class IoUnit:
         else:
             tr = IoTr(f.qual, node, env, f.nt)
             body = tr.block(list(node.body))
-        binders = ' '.join(f'({lname(n)} : {lean_t(k)})' for n, k in list(f.closure) + list(f.params) if k != 'Path')
+        binders = ' '.join(f'({lname(n)} : {lean_t(k)})' for n, k in list(f.closure) + list(f.params) if k not in ('Path', 'NoKw'))
         shown = ast.parse(ast.unparse(node)).body[0]
         if shown.body and isinstance(shown.body[0], ast.Expr) and isinstance(shown.body[0].value, ast.Constant) and len(shown.body) > 1:
             shown.body = shown.body[1:]
@@ -885,6 +971,16 @@ def unit():
             doc='the frame as `GpdFrameR`: `columns` and the cells of a row are without the geometry column')
     fg.reader = True
     fns.append(fg)
+    k1 = Fn('TimeInterval._to_fastkml', 'tiToFastkml', [('self', 'TI')], doc='`KmlDateTime` is the instant')
+    k1.reader, k1.ret_kind, k1.file = True, 'KTime', 'time.py'
+    k2 = Fn('BaseShapeProtocol.to_fastkml_placemark', 'toFastkmlPlacemark', [('self', 'Shape'), ('kwargs', 'NoKw')],
+            doc='at no keyword arguments; `geometry=self` is read by fastkml through the geo interface (`giOrErr`)')
+    k2.reader, k2.ret_kind, k2.file = True, 'PM', '_base.py'
+    k2.methods = {'_to_fastkml': ('tiToFastkml', 'TI', 'KTime')}
+    k3 = Fn('CollectionBase.to_fastkml_folder', 'toFastkmlFolder', [('self', 'Coll'), ('folder_name', 'Str')])
+    k3.reader, k3.ret_kind = True, 'KNode'
+    k3.methods = {'to_fastkml_placemark': ('toFastkmlPlacemark', 'Shape', 'PM')}
+    fns += [k1, k2, k3]
     tg = Fn('CollectionBase.to_geopandas', 'toGeopandas', [('self', 'Coll'), ('include_properties', 'Incl')], nt='true',
             doc='what reaches `pd.DataFrame` / `GeoSeries.from_wkt`')
     tg.reader, tg.ret_kind = True, 'FrameW'
